@@ -21,6 +21,11 @@ func (o *Optimizer) init() error {
 		return err
 	}
 	o.stmt = stmt
+	// Unknown functions and wrong argument counts are statement errors:
+	// report them now, not when the first row is evaluated
+	if err := checkStatementFunctionCalls(stmt); err != nil {
+		return err
+	}
 	switch vstmt := stmt.(type) {
 	case *SelectStmt:
 		o.optimizeSelectExpressions(vstmt)
@@ -385,4 +390,79 @@ func (o *Optimizer) buildFinalOrderPlan(s Storage, ffp FinalPlan, hasAggr bool, 
 func (o *Optimizer) buildScanPlan(s Storage) Plan {
 	fopt := NewFilterOptimizer(o.filter.Ast, s, o.filter)
 	return fopt.Optimize()
+}
+
+// checkFunctionCalls checks every function call inside expr: the function
+// must exist and be called with an argument count it accepts. Aggregate
+// functions are only known where allowAggr is set (select fields).
+func checkFunctionCalls(expr Expression, allowAggr bool) error {
+	var ret error
+	expr.Walk(func(e Expression) bool {
+		if ret != nil {
+			return false
+		}
+		fc, ok := e.(*FunctionCallExpr)
+		if !ok {
+			return true
+		}
+		fname, err := GetFuncNameFromExpr(fc)
+		if err != nil {
+			ret = err
+			return false
+		}
+		var (
+			numArgs int
+			varArgs bool
+		)
+		if f, have := GetScalarFunctionByName(fname); have {
+			numArgs, varArgs = f.NumArgs, f.VarArgs
+		} else if f, have := GetAggrFunctionByName(fname); have && allowAggr {
+			numArgs, varArgs = f.NumArgs, f.VarArgs
+		} else {
+			ret = NewSyntaxError(fc.GetPos(), "Cannot find function %s", fname)
+			return false
+		}
+		if !varArgs && len(fc.Args) != numArgs {
+			ret = NewSyntaxError(fc.GetPos(), "Function %s require %d arguments but got %d", fname, numArgs, len(fc.Args))
+			return false
+		}
+		if varArgs && len(fc.Args) < numArgs {
+			ret = NewSyntaxError(fc.GetPos(), "Function %s require at least %d arguments but got %d", fname, numArgs, len(fc.Args))
+			return false
+		}
+		return true
+	})
+	return ret
+}
+
+func checkStatementFunctionCalls(stmt Statement) error {
+	switch vstmt := stmt.(type) {
+	case *SelectStmt:
+		if err := checkFunctionCalls(vstmt.Where.Expr, false); err != nil {
+			return err
+		}
+		for _, field := range vstmt.Fields {
+			if err := checkFunctionCalls(field, true); err != nil {
+				return err
+			}
+		}
+	case *DeleteStmt:
+		return checkFunctionCalls(vstmt.Where.Expr, false)
+	case *PutStmt:
+		for _, kvp := range vstmt.KVPairs {
+			if err := checkFunctionCalls(kvp.Key, false); err != nil {
+				return err
+			}
+			if err := checkFunctionCalls(kvp.Value, false); err != nil {
+				return err
+			}
+		}
+	case *RemoveStmt:
+		for _, key := range vstmt.Keys {
+			if err := checkFunctionCalls(key, false); err != nil {
+				return err
+			}
+		}
+	}
+	return nil
 }
